@@ -336,6 +336,7 @@ fn drive<P: Prop>(p: &P, a: &Args) -> i32 {
             "solver_seconds_cpu": (st.solver_ns as f64) / 1e9,
             "leaves_reexecuted_concretely": st.concrete_replays,
             "witness_classes": st.witness,
+            "measured_maxima": st.maxima,
             "known_finding_paths": n_known,
             "inconclusive": inconclusive,
             "worker_processes": a.procs, "threads_per_process": a.threads,
@@ -364,12 +365,24 @@ fn main() {
             a.id = v["property"].as_str().unwrap_or("").to_string();
         }
     }
+    let consts = std::fs::read_to_string(a.verif_dir.join("constants.json"))
+        .ok()
+        .and_then(|s| serde_json::from_str::<Value>(&s).ok())
+        .unwrap_or(Value::Null);
+    let _ = common::CONSTS.set(consts);
     let code = match a.id.as_str() {
         "C01" => drive(&props::c01::C01, &a),
         "C02" => drive(&props::captured::Captured(props::captured::Which::C02), &a),
         "C03" => drive(&props::captured::Captured(props::captured::Which::C03), &a),
         "C09" => drive(&props::captured::Captured(props::captured::Which::C09), &a),
         "C11" => drive(&props::captured::Captured(props::captured::Which::C11), &a),
+        "C07" => drive(&props::deadline::C07, &a),
+        "C08" => drive(&props::hookproto::C08, &a),
+        "C10" => drive(&props::adapters::C10, &a),
+        "C15" => drive(&props::misc::C15, &a),
+        "C19" => drive(&props::misc::C19, &a),
+        "C20" => drive(&props::misc::C20, &a),
+        "C14a" => drive(&props::misc::IdDistinct, &a),
         other => {
             eprintln!("unknown property {}", other);
             2
